@@ -273,6 +273,7 @@ impl Prop for C05 {
         for c in ["n=127", "n=0", "n<0", "n>0"] {
             v.push(format!("add_days:F:{}", c));
         }
+        v.push("calendar:inside-CalType-container".to_string());
         v
     }
     fn min_evaluations(&self, tier: Tier) -> u64 {
@@ -307,6 +308,9 @@ impl Prop for C05 {
             ctx.crumb(&format!("calendar {}", spec.describe()));
             match build_cal(&spec) {
                 Some(any) => {
+                    if any.is_wrapped() {
+                        ctx.class("calendar:inside-CalType-container");
+                    }
                     with_cal!(&any, c => run_on(ctx, c, &spec, &starts, rng));
                 }
                 None => ctx.violation("C05|calendar-unresolved", json!({"calendar": spec.describe()})),
@@ -321,6 +325,9 @@ impl Prop for C05 {
             ctx.crumb(&format!("calendar {}", spec.describe()));
             match build_cal(&spec) {
                 Some(any) => {
+                    if any.is_wrapped() {
+                        ctx.class("calendar:inside-CalType-container");
+                    }
                     with_cal!(&any, c => run_on(ctx, c, &spec, &starts, rng));
                 }
                 None => ctx.harness_error("could not build generated calendar".into()),
